@@ -12,6 +12,7 @@ import (
 func init() {
 	vfHarnesses["VerifH_serveHTTP_params"] = VerifH_serveHTTP_params
 	vfHarnesses["VerifH_serveHTTP_intparam"] = VerifH_serveHTTP_intparam
+	vfHarnesses["VerifH_serveHTTP_path"] = VerifH_serveHTTP_path
 }
 
 // VerifH_serveHTTP_intparam (C07, C03): a path variable bound to an int32 field (including the
@@ -191,5 +192,65 @@ func VerifH_serveHTTP_params() {
 	}
 	if bound == "h.k" {
 		vfCover("nested-bound")
+	}
+}
+
+// VerifH_serveHTTP_path (C01, C02, C09): the documented path normalisation of Mux.ServeHTTP (a
+// leading '/' is added when missing, exactly ONE trailing '/' is removed) followed by routing, on
+// a fully symbolic request path: the handler runs only if the normalised path is covered by the
+// rule, and always when it is (strict reading); the captured field is the reference capture.
+func VerifH_serveHTTP_path() {
+	in := schemaRoute()
+	out := newFakeMD("vf.Resp", strField("r"))
+	tmpl := "/aa/{f}"
+	if vfBool() {
+		tmpl = "/aa/{f=bb/*}"
+	}
+	mux, srv, _ := vfMuxWith(vfHTTPRule("GET", tmpl), in, out)
+	raw := vfAsciiString(vfLen(vfBound(7, 9)))
+	r := &http.Request{
+		Method: "GET", URL: &url.URL{Path: raw}, Header: http.Header{"Accept": []string{"application/x"}},
+		Body: vfNopCloser{&vfWholeReader{}}, ProtoMajor: 1, ProtoMinor: 1,
+	}
+	w := newFakeRW()
+	mux.ServeHTTP(w, r)
+	w.finish()
+	// reference normalisation
+	norm := raw
+	if len(norm) == 0 || norm[0] != '/' {
+		norm = "/" + norm
+	}
+	if len(norm) > 0 && norm[len(norm)-1] == '/' {
+		norm = norm[:len(norm)-1]
+	}
+	t, st := refParseTemplate(tmpl)
+	if st != refValid {
+		vfFail("template of the harness is not valid")
+	}
+	segs, ok := refSplit(norm)
+	liberal, strict := false, false
+	var caps []string
+	if ok {
+		liberal, caps = refMatch(t, segs, false)
+		strict, _ = refMatch(t, segs, true)
+	}
+	implicit := norm == "/vf.S/M0" // the implicit /Service/Method binding
+	if srv.calls > 0 {
+		vfCheck(srv.calls == 1, "handler invoked more than once")
+		vfCheck(liberal || implicit, "request dispatched although its normalised path is not covered by a rule of the method")
+		if implicit {
+			vfCheck(srv.got[0].sets == 0, "the implicit binding set a field")
+			vfCover("implicit")
+			return
+		}
+		vfCheck(srv.got[0].str("f") == caps[0], "captured field differs from the path text the variable covers")
+		vfCover("dispatched")
+		if len(raw) > 0 && raw[len(raw)-1] == '/' {
+			vfCover("trailing-slash-stripped")
+		}
+	} else {
+		vfCheck(!strict && !implicit, "request whose normalised path is covered by a rule was not dispatched")
+		vfCheck(w.status == 404 || w.status == 400 || w.status == 405, "unrouted request not answered 404/400/405")
+		vfCover("not-dispatched")
 	}
 }
